@@ -8,6 +8,14 @@ struct StatusCode {
 };
 inline const StatusCode StatusCode::SUCCESS{0};
 inline const StatusCode StatusCode::FAILURE{1};
+// message macros of AsgMessaging: stream syntax, no effect on the job's outcome
+#include <sstream>
+#define VERIF_MSG(x) do { std::ostringstream verif_msg_s; verif_msg_s << x; } while (0)
+#define ANA_MSG_WARNING(x) VERIF_MSG(x)
+#define ANA_MSG_INFO(x) VERIF_MSG(x)
+#define ANA_MSG_ERROR(x) VERIF_MSG(x)
+#define ANA_MSG_DEBUG(x) VERIF_MSG(x)
+#define ANA_MSG_VERBOSE(x) VERIF_MSG(x)
 #define ANA_CHECK(x) do { if (!(x).isSuccess()) return StatusCode::FAILURE; } while (0)
 struct ISvcLocator {};
 namespace xAOD { struct TFileAccessTracer { static void enableDataSubmission(bool) {} }; }
